@@ -17,7 +17,7 @@ GeoVerdict(e) ==
   LET g0 == [A |-> e.A0, edges |-> e.edges0]
       deg == DegreeSeq(e.A0)
       g1 == GeoReplay(e, g0, 1, deg)
-      tags == "geo,model" \o e.model \o "," \o e.setup
+      tags == "geo,model" \o e.model \o "," \o e.setup \o "," \o e.drep
   IN IF e.exc # "" THEN <<"REJECT", "DrawsConsumed", "randomly_rewire_geomodel_" \o e.model \o ":" \o e.exc, tags>>
      ELSE IF ~EdgesMatch(g0) THEN <<"REJECT", "EdgeList", "initial edge list", tags>>
      ELSE IF e.used # 2 * Len(e.hist) THEN <<"REJECT", "DrawsConsumed", "randomly_rewire_geomodel_" \o e.model, tags>>
